@@ -16,6 +16,7 @@ var c17Specs = []famSpec{
 	{Family: "rand-dense", Pool: 100000, PoolQ: 5000},
 	{Family: "lattice", Pool: 100000, PoolQ: 5000},
 	{Family: "rectilinear", FreshQ: 2500, FreshT: 80000},
+	{Family: "rand-mid", Pool: 40000, PoolQ: 2000},
 	{Family: "rand-wide", FreshQ: 2500, FreshT: 100000},
 	{Family: "nested", FreshQ: 1000, FreshT: 30000},
 	{Family: "xproc-a", FreshQ: 400, FreshT: 5000},
